@@ -70,6 +70,47 @@ Theorem C03_generated_order : gen_reset_first = true /\ forallb p_reset_first ge
 Proof. split; vm_compute; reflexivity. Qed.
 Print Assumptions C03_generated_order.
 
+(* Registering a configuration session is NOT a belief-resetting event: [platform_check] contains the REGISTER fact
+   p_reg_keeps (generated from the ast of update_privilege_levels and what it calls, register_configuration_session and
+   _create_configuration_session, sync and async: no assignment to _current_priv_level) ... *)
+Theorem C03_register_keeps_belief :
+  forall P, platform_check P = true -> forall s k, belief (fst (fst (run_op P s (ORegister k)))) = belief s.
+Proof. exact register_keeps_belief_checked. Qed.
+Print Assumptions C03_register_keeps_belief.
+
+(* ... so from ANY state with the belief set — the device in exec, privilege_exec, configuration or INSIDE another
+   configuration session, whose prompt the new session's pattern may match — a session is registered and any commands /
+   configs at any level (the new session, the one the device sits in, plain configuration) / acquire_priv /
+   send_interactive / generic-off follow: full specification (exact lines, each in the required level, belief sound)
+   with no region hypothesis.  (The tracked level is the only thing telling same-prompt sessions apart.) *)
+Theorem C03_register_in_any_level :
+  forall P, platform_check P = true -> forall s k h,
+    Inv P s -> belief s <> None -> forallb (op_neutral P) h = true -> forallb plain_op h = true ->
+    Forall (step_good P) (run_hist P s (ORegister k :: h)).
+Proof. exact register_in_level. Qed.
+Print Assumptions C03_register_in_any_level.
+
+(* ... and more generally: switching generic-driver mode on is the ONLY operation that resets a belief the driver has.
+   open, then ANY history that never switches it on — sessions registered at any moment and in any level, inside another
+   session included — has the full specification, with no region hypothesis at all *)
+Theorem C03_levels_without_generic_on :
+  forall P, platform_check P = true -> forall m0 h,
+    In m0 (p_login P) -> forallb (op_neutral P) h = true -> forallb no_generic_on h = true ->
+    Forall (step_good P) (run_hist P (init P m0) (OOpen :: h)).
+Proof. exact levels_no_generic_on. Qed.
+Print Assumptions C03_levels_without_generic_on.
+
+(* the register fact is necessary: with a registration that forgets the level the same statement is false (witness on
+   the NX-OS shape: send_configs(A) . register B . send_configs(B) types B's lines into session A) *)
+Theorem C03_register_reset_refuted : ~ C03_without_register_fact.
+Proof. exact without_register_fact_refuted. Qed.
+Print Assumptions C03_register_reset_refuted.
+
+(* tie of the register fact to the current source tree *)
+Theorem C03_generated_register_keeps : gen_reg_keeps = true /\ forallb p_reg_keeps gen_platforms = true.
+Proof. split; vm_compute; reflexivity. Qed.
+Print Assumptions C03_generated_register_keeps.
+
 (* one operation from ANY state satisfying the invariant (not only states reached from login) *)
 Theorem C03_step :
   forall P, platform_check P = true -> forall s o s' seg res,
